@@ -225,6 +225,26 @@ func (c *Ctx) c11DeleteExpired(b BK) {
 	if b.Sharded {
 		c.shardCoverage("R11.2", op, run.paths, false)
 	}
+	// the scan visits every entry: no loop is left early, a sync.Map.Range callback always returns true
+	for _, p := range run.paths {
+		stop := false
+		for _, ev := range p.Events {
+			if ev.Kind == pw.EvLoopEnd && ev.Note == "break" {
+				stop = true
+			}
+			if ev.Kind == pw.EvExit && ev.Frame != nil && ev.Frame.Parent != nil && len(ev.Results) == 1 && ev.Results[0] != nil && ev.Results[0].Type != nil {
+				if bt, ok := ev.Results[0].Type.Underlying().(*types.Basic); ok && bt.Info()&types.IsBoolean != 0 && !b.Sharded {
+					if t, known := p.Truth(ev.Results[0]); !known || !t {
+						stop = true
+					}
+				}
+			}
+		}
+		if stop {
+			r.Bad("R11.2", op, "scan-stops-early", c.Pos(p.RetPos), "the expired scan stops before all entries were examined (loop left early / Range callback does not return true)", shortTrace(p))
+			break
+		}
+	}
 	if nDel == 0 || nKeep == 0 {
 		r.Unknown("R11.2", op, fmt.Sprintf("vacuous: %d deleting iterations, %d keeping iterations", nDel, nKeep))
 	} else if !hasViolation(r.Obls, "R11.2", op) {
